@@ -312,6 +312,24 @@ def udp_fetch(addr, name, timeout=2):
 SECRET = b'TOP-SECRET'
 
 
+def leads_to(path):
+    """where a name leads according to pathlib's own non-strict resolution (CPython, not nobodd: a dangling link is
+    followed lexically, missing tails are kept); None when a symbolic-link loop left part of the result unresolved"""
+    try:
+        p = Path(path).resolve()
+    except (OSError, RuntimeError, ValueError):
+        return None
+    q = p
+    try:
+        while str(q) != q.anchor:
+            if q.is_symlink():
+                return None
+            q = q.parent
+    except OSError:                 # over-long component etc.: not a question of inside / outside
+        return None
+    return str(p)
+
+
 def check_tree(ctx, R, rng, nnames, do_rrq, do_udp):
     tmp = os.path.realpath(tempfile.mkdtemp(prefix='c18-'))
     try:
@@ -376,6 +394,15 @@ def check_tree(ctx, R, rng, nnames, do_rrq, do_udp):
                     ctx.violation('resolve_path/inside-refused',
                                   f'{name!r} denotes the regular file {k!r} inside the base but was refused: {got[1]}',
                                   dict(api='resolve', name=name, impl=got[1], **treedesc))
+                # a name that leaves the base is refused with an ACCESS VIOLATION whether or not something exists at its
+                # target (the answer must not reveal which outside paths exist)
+                joined = os.path.join(base, name) if not name.startswith('/') else name
+                away = leads_to(joined)
+                if away and not (away == realbase or away.startswith(realbase + '/')) and got[1] != 'PermissionError' \
+                        and not got[1].startswith('OSError:ENAMETOOLONG') and '\0' not in name:
+                    ctx.violation('resolve_path/outside-not-access-violation',
+                                  f'{name!r} leads outside the base (to {away!r}) and is refused with {got[1]} instead of an access violation',
+                                  dict(api='resolve', name=name, impl=got[1], away=away, **treedesc))
             # ---- pathlib join
             pp = PurePosixPath(realbase) / name
             want = [len(pp.root), list(pp.parts[1:] if pp.root else pp.parts)]
@@ -513,9 +540,52 @@ def _dedupe(ctx, per_signature=2):
     ctx.violation = violation
 
 
+RELATIVE_BASE = r'''
+with tempfile.TemporaryDirectory() as d:
+    for side, text in (('a', b'FROM THE CONFIGURED BASE'), ('b', b'SECRET OF ANOTHER TREE')):
+        os.makedirs(os.path.join(d, side, 'tftp'))
+        open(os.path.join(d, side, 'tftp', 'file.txt'), 'wb').write(text)
+    open(os.path.join(d, 'b', 'tftp', 'only_b.txt'), 'wb').write(b'SECRET OF ANOTHER TREE 2')
+    os.chdir(os.path.join(d, 'a'))
+    srv, th = start('tftp')                      # a RELATIVE base directory, as `-d tftp` on the command line gives
+    res = {}
+    def fetch(name):
+        c = Client(srv.server_address, 1.0); c.rrq(name); c.run()
+        r = dict(finished=c.finished, data=c.buf.decode('latin-1'), error=(c.error or b'')[2:4].hex()); c.close(); return r
+    res['before'] = fetch(b'file.txt')
+    os.chdir(os.path.join(d, 'b'))               # the process changes its working directory later
+    res['after'] = fetch(b'file.txt')
+    res['only_b'] = fetch(b'only_b.txt')
+    os.chdir('/')
+    res['after_root'] = fetch(b'file.txt')
+    srv.shutdown(); srv.server_close()
+print(json.dumps(res))
+'''
+
+
+def relative_base(ctx):
+    """the base directory is fixed when the server is constructed: a later change of the working directory neither
+    moves what is served nor what counts as inside"""
+    import realserver
+    res = realserver.run_script(RELATIVE_BASE, timeout=60)
+    ctx.case(('relative-base',), True, 'real-udp-relative-base')
+    if res.get('crash'):
+        ctx.violation('tftpd.real/harness-crash', f'relative-base scenario crashed: {res.get("stderr", "")[-300:]}', res)
+        return
+    want = 'FROM THE CONFIGURED BASE'
+    for k in ('before', 'after', 'after_root'):
+        if not res[k]['finished'] or res[k]['data'] != want:
+            ctx.violation('resolve_path/base-moved', f'server constructed with the relative base "tftp": request for file.txt {k.replace("_", " ")} a chdir '
+                          f'returned {res[k]}', dict(result=res))
+            return
+    if res['only_b']['finished'] or 'SECRET' in res['only_b']['data']:
+        ctx.violation('resolve_path/base-moved', f'after a chdir a file of another tree was served: {res["only_b"]}', dict(result=res))
+
+
 def run(ctx, build):
     _dedupe(ctx)
     logging.disable(logging.CRITICAL)
+    relative_base(ctx)
     try:
         R = ctx.runner('Resolve')
     except lib.BuildError:
